@@ -12,6 +12,7 @@
 -/
 import QV.Proofs.ServerAnswerCap
 import QV.Proofs.ServerMsg
+import QV.Proofs.ServerSigned
 
 namespace QV.ServerAnswer
 open QV QV.Writer QV.Server QV.ServerScan
@@ -93,7 +94,7 @@ theorem queryReady_scan_state (bufLen : Nat) (tr : Transport) (payload id opcode
     | udp =>
       simp only []
       -- set_limit(clamp(opt.class, 512, payload))
-      have hL := queryReady_call (.setLimit l) _ qn hE trivial (show l ≤ 65535 by omega)
+      have hL := queryReady_call (.setLimit l) _ qn hE (show l ≤ 65535 by omega) (show l ≤ 65535 by omega)
       have eL : (ServerSafety.Call.setLimit l).run (stEdns payload s1) = setLimit l (stEdns payload s1) := rfl
       have hlim : (stEdns payload s1).limit = 512 := by
         show s1.limit = 512; rw [hbase.lim]; rfl
@@ -103,5 +104,51 @@ theorem queryReady_scan_state (bufLen : Nat) (tr : Transport) (payload id opcode
         omega
       rw [eL, setLimit_up l _ (by rw [hlim]; exact hl1) hsz] at hL
       exact hL
+
+/-! ### authenticated (TSIG-signed) requests
+
+  `QV.ServerScan.tsigProcess_some_state` (lean/QV/Proofs/ServerSigned.lean): when the TSIG step
+  authenticates the request, the writer it leaves is
+  `withTsig (stRcode 0 S0) (.response alg requestMac key) (prepOf keyName tsig now 0)` with
+  `TsigFits`, where `S0` is the state of the scan so far (`preTsigState` = the `arSt …` state
+  above): `set_rcode(NOERROR)` followed by a successful `set_tsig`. -/
+
+open QV.ServerTsig in
+/-- `set_rcode(0)` + a fitting `set_tsig` keep `QueryReady` -/
+theorem queryReady_withTsig (s : State) (qn : WName) (h : QueryReady s qn) (mode : TsigMode) (rr : TsigRr)
+    (hfit : TsigFits (stRcode 0 s) mode rr)
+    (hpre : rr.keyName.WF ∧ (tsigAlgName mode).WF ∧ rr.timeSigned.length = 6 ∧ rr.serverTime.length = 6) :
+    QueryReady (withTsig (stRcode 0 s) mode rr) qn := by
+  have h3 : 3 < s.octets.size := by
+    have hi := h.safe.inv
+    have := hi.hdr; have := hi.cur_av; have := hi.av_lim; have := hi.lim_size
+    omega
+  have h1 := queryReady_call (.setRcode 0) s qn h trivial trivial
+  have e1 : (ServerSafety.Call.setRcode 0).run s = setRcode 0 s := rfl
+  rw [e1, setRcode_eq 0 s h3] at h1
+  simp only [] at h1
+  have h2 := queryReady_call (.setTsig mode rr) _ qn h1 hpre trivial
+  have e2 : (ServerSafety.Call.setTsig mode rr).run (stRcode 0 s) = setTsig mode rr (stRcode 0 s) := rfl
+  rw [e2, setTsig_fits mode rr _ hfit] at h2
+  exact h2
+
+open QV.ServerTsig in
+/-- **the state `handle_query` is entered in for an authenticated request is `QueryReady`** -/
+theorem queryReady_signed_state (bufLen : Nat) (tr : Transport) (payload id opcode : Nat) (rd : Bool)
+    (hbuf : minBuf tr payload ≤ bufLen) (hpay : 512 ≤ payload) (hpay16 : payload ≤ 65535)
+    (q : Spec.DQuestion) (qn : WName) (hp : WName.parse q.qname = some (qn, [])) (hw : qn.wire = q.qname)
+    (hl : q.qname.length ≤ 255) (hqwf : qn.WF) (e : Bool) (l : Nat) (hl1 : 512 ≤ l) (hl2 : l ≤ max 512 payload)
+    (alg : Hmac.Alg) (mac secret : List UInt8) (t : Tsig.ReadTsigRr) (kn : WName) (nowT : Tsig.TimeSigned)
+    (hkn : WName.parse t.keyName = some (kn, []))
+    (hfit : TsigFits (stRcode 0 (arSt (qSt (hdrSt (w0 bufLen (lim0 tr)) id opcode rd) (some q)) tr payload e l))
+      (.response (toWriterAlg alg) mac secret) (prepOf kn t nowT 0)) :
+    QueryReady (withTsig (stRcode 0 (arSt (qSt (hdrSt (w0 bufLen (lim0 tr)) id opcode rd) (some q)) tr payload e l))
+      (.response (toWriterAlg alg) mac secret) (prepOf kn t nowT 0)) qn := by
+  refine queryReady_withTsig _ qn
+    (queryReady_scan_state bufLen tr payload id opcode rd hbuf hpay hpay16 q qn hp hw hl hqwf e l hl1 hl2) _ _ hfit ?_
+  refine ⟨Writer.parse_wf hkn, ServerSafety.algName_WF _, ?_, ?_⟩
+  · show (if (0 : Nat) = 18 then (Tsig.ReadTsigRr.timeSigned t).asSlice else nowT.asSlice).length = 6
+    simp
+  · rfl
 
 end QV.ServerAnswer
